@@ -497,7 +497,7 @@ def run(ctx):
     if vp_ is None:
         raise AnalysisError('anchor vanished: LatexDelimitedVerbatimParser.parse')
     n2e = 0
-    for evs_, rd_ in _c01v.verbatim_first_read_paths(vp_):
+    for evs_, rd_ in _c01v.verbatim_first_read_paths(vp_, vm_.methods('LatexDelimitedVerbatimParser')):
         n2e += 1
         kinds_ = [k_ for k_, _n in evs_]
         ctx.decide('R02ae', 'SKIP' in kinds_, vm_, rd_, 'white space skipped before the delimiter is read',
